@@ -235,10 +235,25 @@ structure ArpaEncW (fval : Nat → Rat) (a : Arpa) (bound : Nat) (P B : List Wor
   nodup : (a.entries.map (·.1)).Nodup
   words : ∀ p ∈ a.entries, ∀ w ∈ p.1, w < bound
   unigrams : ∀ w, w < bound → a.gram [w] ≠ none
-  pval : ∀ g e, a.gram g = some e → P g < 2^32 ∧ fval (if g.length = 1 then P g else P g % 2^31 + 2^31) = e.prob ∧ fval (P g) = e.prob
+  /-- the probability bits the builder reads decode to the ARPA value — except for a hallucinated `<unk>` -/
+  pval : ∀ g e, a.gram g = some e → ¬(a.unkHallucinated = true ∧ g = [0]) →
+    P g < 2^32 ∧ fval (if g.length = 1 then P g else P g % 2^31 + 2^31) = e.prob ∧ fval (P g) = e.prob
   bval : ∀ g e, a.gram g = some e → B g < 2^32 ∧ fval (B g) = e.backoff ∧
     (B g = minusZero ↔ (e.backoff = 0 ∧ ¬(a.unkHallucinated = true ∧ g = [0])))
+  /-- a hallucinated `<unk>` is the zeroed slot 0 of the unigram file while the builder runs (`unkSlot`) -/
+  unk0 : a.unkHallucinated = true → P [0] = 0 ∧ B [0] = plusZero
   zero : fval plusZero = 0 ∧ fval minusZero = 0
+
+/-- the `<unk>` fix-up `GenericModel::InitializeFromARPA` applies after the builder (`fixUnk`): `U` = bits of
+`unknown_missing_logprob`; and the class the theorems exclude: when `<unk>` is hallucinated no blank has `<unk>` as its newest
+word (`basis`; on that class the code computes the blank from the zeroed slot — known finding
+`blank-based-on-hallucinated-unk`, witness `C03TrieBuild.unk_class_deviates`). -/
+structure UnkOK (fval : Nat → Rat) (a : Arpa) (U : Nat) : Prop where
+  bits : U < 2^32
+  val : a.unkHallucinated = true → ∃ e, a.gram [0] = some e ∧ fval U = e.prob ∧ e.backoff = 0
+  basis : a.unkHallucinated = true → ∀ w ctx, a.gram (w :: ctx) = none → extendsLeft a (w :: ctx) = true → w ≠ 0
+
+def unkOf (a : Arpa) (U : Nat) : Option Nat := if a.unkHallucinated then some U else none
 
 variable {fval : Nat → Rat} {a : Arpa} {bound : Nat} {P B : List Word → Nat}
 
@@ -478,7 +493,7 @@ theorem blank_score (enc : ArpaEncW fval a bound P B) (fadd : Nat → Nat → Na
     (hf : Full (visitOrder (gramsOf a P B)) (visitOrder (gramsOf a P B)) st) (b : Blank) (hb : b ∈ st.blanks)
     (hval : fval (blankProb fadd (visitOrder (gramsOf a P B)) b)
       = fval b.basis + ((messageKeys b).map (msgValue fval (visitOrder (gramsOf a P B)))).sum)
-    (w : Word) (ctx : List Word) (hk : b.key = w :: ctx) :
+    (w : Word) (ctx : List Word) (hk : b.key = w :: ctx) (hunk : a.unkHallucinated = true → w ≠ 0) :
     fval (blankProb fadd (visitOrder (gramsOf a P B)) b) = score a ctx w := by
   obtain ⟨gm, hgm, hok⟩ := hf.sound b hb
   obtain ⟨n, hn2, hnl, hbk⟩ := hok.isPrefix
@@ -503,7 +518,10 @@ theorem blank_score (enc : ArpaEncW fval a bound P B) (fadd : Nat → Nat → Na
     rw [hge] at hr
     simp only [Option.map_some, Option.some.injEq] at hr
     have hbasis : fval b.basis = e0.prob := by
-      rw [← hrp, ← hr]; exact (enc.pval _ e0 hge).2.2
+      rw [← hrp, ← hr]
+      refine (enc.pval _ e0 hge ?_).2.2
+      rintro ⟨hu, heq⟩
+      exact hunk hu (List.cons.inj heq).1
     -- the longer prefixes are not real
     have hnone : ∀ c, b.basedOn ≤ c → c < b.basedOn + (n - b.basedOn) → a.gram (w :: ctx.take c) = none := by
       intro c h1 h2
@@ -764,17 +782,132 @@ theorem found_ext (p1 p2 b1 b2 : Rat) (l1 l2 r1 r2 k1 k2 : Bool) (hp : p1 = p2) 
     Score.toFound ⟨p1, b1, l1, r1, k1⟩ = Score.toFound ⟨p2, b2, l2, r2, k2⟩ := by
   subst hp; subst hb; subst hl; subst hr; rfl
 
+/-! ### the `<unk>` fix-up keeps the keys and changes only the record of `[0]` -/
+
+theorem fixUnk_keys (u : Option Nat) (T : BT) : (fixUnk u T).map (·.1) = T.map (·.1) := by
+  cases u with
+  | none => rfl
+  | some u =>
+    simp only [fixUnk, List.map_map]
+    apply List.map_congr_left
+    intro p _
+    simp only [Function.comp]
+    split <;> rfl
+
+theorem isKey_fixUnk (u : Option Nat) (T : BT) (g : List Nat) : IsKey (fixUnk u T) g ↔ IsKey T g := by
+  have h : ∀ T' : BT, IsKey T' g ↔ g ∈ T'.map (·.1) := by
+    intro T'; simp only [IsKey, List.mem_map]
+  rw [h, h, fixUnk_keys]
+
+theorem childrenOf_fixUnk (u : Option Nat) (T : BT) (g : List Nat) : childrenOf (fixUnk u T) g = childrenOf T g := by
+  cases u with
+  | none => rfl
+  | some u =>
+    unfold childrenOf fixUnk
+    congr 1
+    rw [List.filterMap_map]
+    congr 1
+    funext p
+    simp only [Function.comp]
+    split <;> rfl
+
+theorem entryOf_fixUnk (u : Option Nat) (T : BT) (order : Nat) (g : List Nat) :
+    entryOf fval (fixUnk u T) order g = entryOf fval T order g := by
+  funext v
+  unfold entryOf
+  rw [childrenOf_fixUnk]
+
+theorem lookup_fixUnk_some (u : Nat) (T : BT) (g : List Nat) :
+    (fixUnk (some u) T).lookup g = if g = [0] then (T.lookup g).map (fun _ => (u, plusZero)) else T.lookup g := by
+  induction T with
+  | nil => simp [fixUnk, List.lookup]
+  | cons p ps ih =>
+    obtain ⟨k, v⟩ := p
+    have ih' : (List.map (fun e : List Nat × (Nat × Nat) => if e.1 = [0] then (e.1, (u, plusZero)) else e) ps).lookup g
+        = if g = [0] then (ps.lookup g).map (fun _ => (u, plusZero)) else ps.lookup g := ih
+    by_cases hk : g = k
+    · subst hk
+      by_cases h0 : g = [0]
+      · simp [fixUnk, List.lookup, h0]
+      · simp [fixUnk, List.lookup, h0]
+    · have hb : (g == k) = false := by simpa using hk
+      by_cases h0 : k = [0]
+      · simp only [fixUnk, List.map_cons, h0, if_true, List.lookup] at ih' ⊢
+        rw [h0] at hb
+        simp only [hb]
+        exact ih'
+      · simp only [fixUnk, List.map_cons, h0, if_false, List.lookup, hb] at ih' ⊢
+        exact ih'
+
+theorem lookup_fixUnk_ne (u : Option Nat) (T : BT) (g : List Nat) (h : u = none ∨ g ≠ [0]) :
+    (fixUnk u T).lookup g = T.lookup g := by
+  cases u with
+  | none => rfl
+  | some u =>
+    rw [lookup_fixUnk_some]
+    rcases h with h | h
+    · cases h
+    · simp [h]
+
+theorem fixUnk_btok (u : Option Nat) (T : BT) (bound order : Nat) (ok : BTOK T bound order) : BTOK (fixUnk u T) bound order := by
+  have hmem : ∀ p ∈ fixUnk u T, ∃ q ∈ T, q.1 = p.1 := by
+    intro p hp
+    have : p.1 ∈ (fixUnk u T).map (·.1) := List.mem_map.mpr ⟨p, hp, rfl⟩
+    rw [fixUnk_keys] at this
+    obtain ⟨q, hq, he⟩ := List.mem_map.mp this
+    exact ⟨q, hq, he⟩
+  refine ⟨ok.order2, by rw [fixUnk_keys]; exact ok.nodup, ?_, ?_, ?_, ?_⟩
+  · intro p hp; obtain ⟨q, hq, he⟩ := hmem p hp; rw [← he]; exact ok.len q hq
+  · intro p hp; obtain ⟨q, hq, he⟩ := hmem p hp; rw [← he]; exact ok.words q hq
+  · intro w hw; rw [isKey_fixUnk]; exact ok.unigrams w hw
+  · intro p hp h2
+    obtain ⟨q, hq, he⟩ := hmem p hp
+    rw [isKey_fixUnk, ← he]; rw [← he] at h2
+    exact ok.parent q hq h2
+
+theorem fixUnk_vals (u : Option Nat) (T : BT) (hu : ∀ x, u = some x → x < 2^32) (hv : ValsOK T) : ValsOK (fixUnk u T) := by
+  cases u with
+  | none => exact hv
+  | some x =>
+    intro p hp
+    simp only [fixUnk, List.mem_map] at hp
+    obtain ⟨q, hq, rfl⟩ := hp
+    split
+    · exact ⟨hu x rfl, (by decide : plusZero < 2^32)⟩
+    · exact hv q hq
+
 /-- **the builder's bit table agrees with `Table.build a`** on every key: real entries and blanks, values and marks -/
 theorem gen_table_agree (fadd : Nat → Nat → Nat) (enc : ArpaEncW fval a bound P B) (st : VisitState)
     (hf : Full (visitOrder (gramsOf a P B)) (visitOrder (gramsOf a P B)) st)
     (hval : ∀ b ∈ st.blanks, fval (blankProb fadd (visitOrder (gramsOf a P B)) b)
       = fval b.basis + ((messageKeys b).map (msgValue fval (visitOrder (gramsOf a P B)))).sum)
     (hsign : ∀ b ∈ st.blanks, fval (blankProb fadd (visitOrder (gramsOf a P B)) b % 2^31 + 2^31)
-      = fval (blankProb fadd (visitOrder (gramsOf a P B)) b)) :
-    TableAgree (tableOf (ftOf fval (genTable fadd a.order (visitOrder (gramsOf a P B)) st.blanks) a.order) a.order) (Table.build a) := by
+      = fval (blankProb fadd (visitOrder (gramsOf a P B)) b))
+    (U : Nat) (uk : UnkOK fval a U) :
+    TableAgree (tableOf (ftOf fval (fixUnk (unkOf a U) (genTable fadd a.order (visitOrder (gramsOf a P B)) st.blanks)) a.order)
+      a.order) (Table.build a) := by
   refine ⟨rfl, ?_⟩
   intro g
-  rw [lookup_ftOf]
+  rw [lookup_ftOf, entryOf_fixUnk]
+  by_cases hug : a.unkHallucinated = true ∧ g = [0]
+  · -- the record the fix-up wrote
+    obtain ⟨hu, rfl⟩ := hug
+    obtain ⟨e, hge, hUv, hb0⟩ := uk.val hu
+    have hun : unkOf a U = some U := by simp [unkOf, hu]
+    rw [hun, lookup_fixUnk_some, if_pos rfl, genTable_lookup_real fadd enc st hf _ e hge]
+    have hel := gen_children_extendsLeft fadd enc st hf [0] (by simp)
+    have ho : (1 : Nat) ≠ a.order := by have := enc.wf.order_ge; omega
+    simp only [Table.build, hge, Option.map_some]
+    unfold entryOf
+    apply found_ext
+    · simpa using hUv
+    · simp [ho, hb0, enc.zero.1]
+    · simp only [List.length_singleton, ho, if_false]; exact hel
+    · simp [ho, hu, plusZero, noExtensionBits]
+  rw [lookup_fixUnk_ne _ _ _ (by
+    by_cases hu : a.unkHallucinated = true
+    · right; intro h0; exact hug ⟨hu, h0⟩
+    · left; simp [unkOf, hu])]
   cases g with
   | nil =>
     have h1 : (genTable fadd a.order (visitOrder (gramsOf a P B)) st.blanks).lookup [] = none := by
@@ -790,7 +923,7 @@ theorem gen_table_agree (fadd : Nat → Nat → Nat) (enc : ArpaEncW fval a boun
     cases hg : a.gram (w :: ctx) with
     | some e =>
       rw [genTable_lookup_real fadd enc st hf _ e hg]
-      obtain ⟨hP, hPv, _⟩ := enc.pval _ e hg
+      obtain ⟨hP, hPv, _⟩ := enc.pval _ e hg hug
       obtain ⟨hB, hBv, hBz⟩ := enc.bval _ e hg
       simp only [Table.build, hg, Option.map_some]
       unfold entryOf markedBG
@@ -860,7 +993,7 @@ theorem gen_table_agree (fadd : Nat → Nat → Nat) (enc : ArpaEncW fval a boun
         have hnc := blank_not_ctx enc _ hbk
         apply found_ext
         · simp only [hne1, if_false]
-          rw [hsign b hb]; exact blank_score enc fadd st hf b hb (hval b hb) w ctx hkey
+          rw [hsign b hb]; exact blank_score enc fadd st hf b hb (hval b hb) w ctx hkey (fun hu => uk.basis hu w ctx hg hx)
         · simp only [hneo, if_false]
           split
           · exact enc.zero.1
@@ -965,7 +1098,11 @@ theorem genTable_vals (fadd : Nat → Nat → Nat) (enc : ArpaEncW fval a bound 
     cases hge : a.gram r.key with
     | none => exact absurd hge hreal
     | some e =>
-      refine ⟨by simp only [hp1]; exact (enc.pval _ e hge).1, ?_⟩
+      refine ⟨?_, ?_⟩
+      · simp only [hp1]
+        by_cases hu : a.unkHallucinated = true ∧ r.key = [0]
+        · rw [hu.2, (enc.unk0 hu.1).1]; decide
+        · exact (enc.pval _ e hge hu).1
       simp only [markedBG, hb1]
       have hB := (enc.bval _ e hge).1
       split
